@@ -417,3 +417,40 @@ func verifLemma_C28_overlay_world_enumeration(k int) {
 		verifrt.Assert(calls == 3, "three-features")
 	}
 }
+
+// ---- C12: the tag-modification layer of overlay worlds (bounded history) --------------------
+// A fixed history of tag edits with symbolic values on the real ModifiedTags, read back
+// through the real wrapper (WrapFeature -> Get): every read by key shows what a per-feature
+// map would hold - the new value after a set, nothing after a remove, the base tag for keys
+// never touched, again a value after set-after-remove - and edits of one feature never
+// show on another.
+func verifLemma_C12_tag_overlay_reads(v string, w string, x string) {
+	id1, id2 := FromOSMRelationID(1), FromOSMRelationID(2)
+	base1 := &RelationFeature{RelationID: id1, Tags: b6.Tags{{Key: "a", Value: b6.NewStringExpression("1")}, {Key: "b", Value: b6.NewStringExpression("2")}}}
+	base2 := &RelationFeature{RelationID: id2, Tags: b6.Tags{{Key: "a", Value: b6.NewStringExpression("3")}}}
+	m := NewModifiedTags()
+	f1, f2 := m.WrapFeature(base1), m.WrapFeature(base2)
+	verifrt.Assert(f1.Get("a").Value.String() == "1" && f1.Get("b").Value.String() == "2" && !f1.Get("c").IsValid(), "untouched-feature-reads-as-the-base")
+
+	m.ModifyOrAddTag(id1.FeatureID(), b6.Tag{Key: "a", Value: b6.NewStringExpression(v)})
+	verifrt.Assert(f1.Get("a").Key == "a" && f1.Get("a").Value.String() == v, "set-replaces-the-value")
+	verifrt.Assert(f1.Get("b").Value.String() == "2", "other-keys-keep-their-value")
+	verifrt.Assert(f2.Get("a").Value.String() == "3", "other-features-are-not-affected")
+
+	m.RemoveTag(id1.FeatureID(), "b")
+	verifrt.Assert(!f1.Get("b").IsValid(), "removed-key-reads-as-absent")
+	verifrt.Assert(f1.Get("a").Value.String() == v, "remove-leaves-other-keys")
+
+	m.ModifyOrAddTag(id1.FeatureID(), b6.Tag{Key: "c", Value: b6.NewStringExpression(w)})
+	verifrt.Assert(f1.Get("c").Key == "c" && f1.Get("c").Value.String() == w, "set-adds-a-new-key")
+	verifrt.Assert(!f2.Get("c").IsValid(), "new-key-only-on-that-feature")
+
+	m.ModifyOrAddTag(id1.FeatureID(), b6.Tag{Key: "b", Value: b6.NewStringExpression(x)})
+	verifrt.Assert(f1.Get("b").Value.String() == x, "set-after-remove-is-visible")
+
+	m.RemoveTag(id2.FeatureID(), "a")
+	verifrt.Assert(!f2.Get("a").IsValid() && f1.Get("a").Value.String() == v, "remove-on-the-other-feature-only")
+
+	late := m.WrapFeature(base1)
+	verifrt.Assert(late.Get("a").Value.String() == v && late.Get("b").Value.String() == x && late.Get("c").Value.String() == w, "a-feature-wrapped-later-reads-the-same")
+}
